@@ -420,7 +420,7 @@ pub fn independent_read(
                 let kind = n["type"].as_str().unwrap_or("").to_string();
                 let mut ln = crate::logical::LNode {
                     kind: kind.clone(),
-                    mode: n["mode"].as_u64().map(|m| m as u32),
+                    mode: n["mode"].as_u64().map(|m| crate::source::from_go_mode(m as u32)),
                     mtime: n["mtime"].as_str().and_then(|s| s.parse::<jiff::Timestamp>().ok()).map(|t| t.as_nanosecond()),
                     ..Default::default()
                 };
@@ -443,7 +443,11 @@ pub fn independent_read(
                         ln.sha = Some(hex::encode(h.finalize()));
                     }
                     "symlink" => {
-                        ln.target = Some(n["linktarget"].as_str().unwrap_or("").as_bytes().to_vec());
+                        // non-UTF-8 targets are stored base64 encoded in `linktarget_raw`
+                        ln.target = Some(match n["linktarget_raw"].as_str() {
+                            Some(raw) => b64_decode(raw),
+                            None => n["linktarget"].as_str().unwrap_or("").as_bytes().to_vec(),
+                        });
                     }
                     _ => {}
                 }
@@ -492,4 +496,32 @@ pub fn seal_json(key: &RawKey, v: &Value, nonce_seed: u64) -> Vec<u8> {
     let mut nonce = [0x77u8; 16];
     nonce[..8].copy_from_slice(&nonce_seed.to_le_bytes());
     key.seal(nonce, &serde_json::to_vec(v).expect("json"))
+}
+
+/// minimal standard-alphabet base64 decoder (padding optional)
+pub fn b64_decode(s: &str) -> Vec<u8> {
+    let val = |c: u8| -> Option<u32> {
+        match c {
+            b'A'..=b'Z' => Some(u32::from(c - b'A')),
+            b'a'..=b'z' => Some(u32::from(c - b'a') + 26),
+            b'0'..=b'9' => Some(u32::from(c - b'0') + 52),
+            b'+' => Some(62),
+            b'/' => Some(63),
+            _ => None,
+        }
+    };
+    let mut out = Vec::new();
+    let mut acc = 0u32;
+    let mut bits = 0;
+    for c in s.bytes() {
+        let Some(v) = val(c) else { continue };
+        acc = (acc << 6) | v;
+        bits += 6;
+        if bits >= 8 {
+            bits -= 8;
+            out.push((acc >> bits) as u8);
+            acc &= (1 << bits) - 1;
+        }
+    }
+    out
 }
